@@ -3,6 +3,7 @@ import NeatviVerif.Drive.C16
 import NeatviVerif.Drive.Ren
 import NeatviVerif.Drive.Lbuf
 import NeatviVerif.Drive.Regex
+import NeatviVerif.Drive.Ex
 /-!
 Line-protocol driver.  Reads case lines (input + the implementation's observables, as printed by
 the C harnesses) on stdin; for every line recomputes the model's observables and evaluates the
@@ -25,6 +26,7 @@ def judge (stream : String) (kv : KV) : Option Verdict :=
   | "rx11" => some (RegexD.judgeRx 11 kv)
   | "rx12" => some (RegexD.judgeRx 12 kv)
   | "rset" => some (RegexD.judgeRset kv)
+  | "ex" => some (ExD.judge 0 kv)
   | "lops04" => some (LbufD.judgeLops 4 kv)
   | "lops02" => some (LbufD.judgeLops 2 kv)
   | "rdwr01" => some (LbufD.judgeRdwr 1 kv)
@@ -37,6 +39,10 @@ partial def loop (h : IO.FS.Stream) (limit : Nat) (ln : Nat) (accs : List (Strin
   let (stream, kv) := parseLine line
   if stream == "" || stream.startsWith "#" then loop h limit (ln + 1) accs else
   let acc := (accs.lookup stream).getD {}
+  -- a case on which the implementation crashed: only judges that model traps look at it
+  if kv.get "crash" == "1" && !(stream.startsWith "ex") then
+    loop h limit (ln + 1) ((stream, acc.bump "crashline") :: accs.filter (·.1 ≠ stream))
+  else
   match judge stream kv with
   | none =>
     IO.println s!"BADCASE {ln} unknown-stream | {line.trimAscii.toString}"
